@@ -674,6 +674,10 @@ func (e *OpEngine) sameExpr(got, want sym.Expr, dims []sym.Poly) bool {
 			return true
 		}
 	}
+	// constants that are the same float64 (run-time `1 - eps` vs the folded constant)
+	if got.RoundConsts().Key() == want.RoundConsts().Key() {
+		return true
+	}
 	ctx := append([]sym.Constraint{}, e.M.PathConstraints()...)
 	for i, d := range dims {
 		ix := sym.PAtom(spec.IxName(i))
